@@ -3,6 +3,7 @@
 -/
 import Rsactor.Inv.Time
 import Rsactor.Ties.timeout_wrappers_shape
+import Rsactor.Ties.forwarders_verbatim
 
 namespace Rsactor.Props.C10
 open Rsactor Rsactor.Model Rsactor.Monitor Rsactor.Extracted
@@ -61,5 +62,6 @@ example : ∃ s, run? (init 1 {})
 
 /-! ### ties to the source: shape lemmas about the tables regenerated from /repo on every run -/
 -- @tie Rsactor.Ties.timeout_wrappers_shape
+-- @tie Rsactor.Ties.forwarders_verbatim
 
 end Rsactor.Props.C10
